@@ -217,7 +217,7 @@ def _build_evaluator(
         elem_fns = [
             _build_evaluator(e, var_indices) for e in expr.expression._expressions
         ]
-        return lambda x, fns=elem_fns: float(sum(f(x) for f in fns))
+        return lambda x, fns=elem_fns: np.float64(sum(f(x) for f in fns))
 
     elif isinstance(expr, DotProduct):
         # x · y = x[0]*y[0] + x[1]*y[1] + ...
@@ -239,7 +239,7 @@ def _build_evaluator(
         # x' @ Q @ x
         Q = expr.matrix
         vec_fn = _build_vector_evaluator(expr.vector, var_indices)
-        return lambda x, vf=vec_fn, Q=Q: float(vf(x) @ Q @ vf(x))
+        return lambda x, vf=vec_fn, Q=Q: np.float64(vf(x) @ Q @ vf(x))
 
     elif isinstance(expr, (MatrixSum, FrobeniusNorm)):
         # sum(X) / ||X||_F over the matrix elements in row-major order
@@ -250,21 +250,21 @@ def _build_evaluator(
             for j in range(mat.cols)
         ]
         if isinstance(expr, MatrixSum):
-            return lambda x, fns=elem_fns: float(sum(f(x) for f in fns))
-        return lambda x, fns=elem_fns: float(np.sqrt(sum(f(x) ** 2 for f in fns)))
+            return lambda x, fns=elem_fns: np.float64(sum(f(x) for f in fns))
+        return lambda x, fns=elem_fns: np.float64(np.sqrt(sum(f(x) ** 2 for f in fns)))
 
     elif isinstance(expr, VectorPowerSum):
         # sum(x ** k) - efficient numpy implementation
         indices = np.array([var_indices[v.name] for v in expr.vector._variables])
         power = expr.power
-        return lambda x, idx=indices, k=power: float(np.sum(x[idx] ** k))
+        return lambda x, idx=indices, k=power: np.float64(np.sum(x[idx] ** k))
 
     elif isinstance(expr, VectorUnarySum):
         # sum(f(x)) - efficient numpy implementation
         indices = np.array([var_indices[v.name] for v in expr.vector._variables])
         op = expr.op
         numpy_func = VectorUnarySum._NUMPY_FUNCS[op]
-        return lambda x, idx=indices, f=numpy_func: float(np.sum(f(x[idx])))
+        return lambda x, idx=indices, f=numpy_func: np.float64(np.sum(f(x[idx])))
 
     elif isinstance(expr, ElementwisePower):
         # x ** k element-wise - returns array
@@ -425,7 +425,7 @@ def _build_evaluator_iterative(
                     elem_fns.append(lambda x, v=val: v)
                 else:
                     elem_fns.append(_build_evaluator(e, var_indices))
-            result_stack.append(lambda x, fns=elem_fns: float(sum(f(x) for f in fns)))
+            result_stack.append(lambda x, fns=elem_fns: np.float64(sum(f(x) for f in fns)))
             continue
 
         if isinstance(node, DotProduct):
@@ -447,7 +447,7 @@ def _build_evaluator_iterative(
         if isinstance(node, QuadraticForm):
             Q = node.matrix
             vec_fn = _build_vector_evaluator(node.vector, var_indices)
-            result_stack.append(lambda x, vf=vec_fn, Q=Q: float(vf(x) @ Q @ vf(x)))
+            result_stack.append(lambda x, vf=vec_fn, Q=Q: np.float64(vf(x) @ Q @ vf(x)))
             continue
 
         # Binary operation
